@@ -173,7 +173,7 @@ Qed.
 (* what one data-plane call can do *)
 Lemma dp_call_spec e dp op k seid id dp' ok :
   dp_call e dp op k seid id = (dp', ok) ->
-  (forall x, In x dp' -> In x dp \/ (x = (seid, k, id) /\ op = DCreate /\ ok = true)) /\
+  (forall x, In x dp' -> In x dp \/ (x = (seid, k, id) /\ op = DCreate)) /\
   (forall x, In x dp -> x <> (seid, k, id) -> In x dp') /\
   (op = DRemove -> ok = true -> ~ In (seid, k, id) dp') /\
   (op = DRemove -> ok = false -> ~ In (seid, k, id) dp /\ dp' = dp) /\
@@ -182,7 +182,7 @@ Lemma dp_call_spec e dp op k seid id dp' ok :
   (ok = true -> op <> DCreate -> In (seid, k, id) dp).
 Proof.
   unfold dp_call. intros H.
-  destruct (dp_has dp (seid, k, id)) eqn:Eh.
+  destruct (dp_has dp (seid, k, id)) eqn:Eh; cbn [negb] in H; rewrite ?andb_false_r, ?andb_true_r in H.
   - apply dp_has_In in Eh.
     destruct op; repeat match type of H with context [if ?b then _ else _] => destruct b end;
       inversion H; subst; clear H;
